@@ -53,8 +53,12 @@ class R:
         self.rnd = random.Random(zlib.crc32(f'{payload.get("seed", 0)}:{name}'.encode()))
 
     def fail(self, prop, key, what, **kw):
-        if prop in self.props and len(self.failures) < 10:
-            self.failures.append(dict(key=f'{prop}.B.{key}', what=what, program=self.name, replayed=True, **kw))
+        if prop not in self.props:
+            return
+        from contracts.b_lib import room
+        ok, kn = room(self.failures, f'{prop}.B.{key}', 10)
+        if ok:
+            self.failures.append(dict(key=f'{prop}.B.{key}', what=what, program=self.name, replayed=True, _known=kn, **kw))
 
     # ---------------------------------------------------------------------------------------------------------------
     # C14
